@@ -665,9 +665,19 @@ def frozen_default_risk(prog, env):
         r0, r1 = Ref(prog, {}), Ref(prog, env)
     except Invalid:
         return False  # not a valid program under one of the environments: nothing to freeze
+    by_name = {m[0]: m for m in prog["maps"]}
+
+    def sliced(name):
+        # a WHOLE alias (map b q) hands the let-valued size of its source on; only a source
+        # that is, somewhere down the chain, a slice has a size computed at parse time
+        m_ = by_name.get(name)
+        if m_ is None:
+            return False
+        return True if m_[2] is not None else sliced(m_[1])
+
     for m in prog["maps"]:
         sel = m[2]
-        if sel and sel[0] == "s" and sel[2] is None and m[1] != regname:
+        if sel and sel[0] == "s" and sel[2] is None and m[1] != regname and sliced(m[1]):
             if len(r0.elems(m[1])[1]) != len(r1.elems(m[1])[1]):
                 return True
     return False
